@@ -70,6 +70,11 @@ def parse_log(log, names):
         short = full.split('::')[-1]
         d = dict(full=full, status='undecided', reason='no verdict', checks=0, failed_checks=[], covers=None,
                  solver_s=None, concrete=None, log_tail=body[-1500:])
+        if re.search(r'timed out|Timeout|TIMEOUT', body) and 'VERIFICATION:- SUCCESSFUL' not in body:
+            d['status'] = 'undecided'
+            d['reason'] = 'harness timeout'
+            res[short] = d
+            continue
         m = re.search(r'VERIFICATION:- (SUCCESSFUL|FAILED)', body)
         if m:
             d['status'] = 'success' if m.group(1) == 'SUCCESSFUL' else 'failed'
@@ -94,11 +99,19 @@ def parse_log(log, names):
             elif any('is not currently supported by Kani' in x or 'unsupported' in x.lower() for x in fc):
                 d['status'] = 'undecided'
                 d['reason'] = 'unsupported construct reached'
-        # concrete playback
-        m = re.search(r'let concrete_vals: Vec<Vec<u8>> = vec!\[(.*?)\];', body, flags=re.S)
-        if m:
+        # concrete playback: one generated test per failed check; take the first one that is not a cover check
+        blocks = re.findall(r'/// Check for `(\w+)`:.*?let concrete_vals: Vec<Vec<u8>> = vec!\[(.*?)\];', body, flags=re.S)
+        chosen = None
+        for kind_, txt in blocks:
+            if kind_ != 'cover':
+                chosen = txt
+                break
+        if chosen is None:
+            m = None if blocks else re.search(r'let concrete_vals: Vec<Vec<u8>> = vec!\[(.*?)\];', body, flags=re.S)
+            chosen = m.group(1) if m else None
+        if chosen is not None:
             vals = []
-            for vm in re.finditer(r'vec!\[([0-9, ]*)\]', m.group(1)):
+            for vm in re.finditer(r'vec!\[([0-9, ]*)\]', chosen):
                 vals.append([int(x) for x in vm.group(1).replace(' ', '').split(',') if x != ''])
             d['concrete'] = vals
         if d['status'] == 'success' and d['covers'] is not None and d['covers'][0] < d['covers'][1]:
@@ -109,6 +122,28 @@ def parse_log(log, names):
             d['reason'] = 'zero checks'
         res[short] = d
     return res
+
+
+def _run_group(cmd, cwd, env, logp, timeout):
+    """Run a command in its own process group; on timeout kill the whole group.  Returns the exit code or None."""
+    import signal
+    with open(logp, 'w') as lf:
+        p = subprocess.Popen(cmd, cwd=cwd, env=env, stdout=lf, stderr=subprocess.STDOUT, start_new_session=True)
+        try:
+            return p.wait(timeout=timeout)
+        except subprocess.TimeoutExpired:
+            try:
+                os.killpg(p.pid, signal.SIGKILL)
+            except Exception:
+                pass
+            p.wait()
+            return None
+        except BaseException:
+            try:
+                os.killpg(p.pid, signal.SIGKILL)
+            except Exception:
+                pass
+            raise
 
 
 def run_harnesses(repo, contracts, work, harnesses, tier):
@@ -125,19 +160,16 @@ def run_harnesses(repo, contracts, work, harnesses, tier):
             return out
         names = [h['harness'] for h in harnesses]
         timeout = max(h.get('timeout', 600) for h in harnesses) * (1 if tier == 'quick' else 3)
-        base = ['cargo', 'kani', '-Z', 'stubbing', '-Z', 'function-contracts', '--output-format', 'terse']
+        base = ['cargo', 'kani', '-Z', 'stubbing', '-Z', 'function-contracts', '-Z', 'unstable-options',
+                '--harness-timeout', f'{timeout}s', '--output-format', 'terse']
         cmd = base + ['-j', str(min(8, max(1, len(names))))]
         for n in names:
             cmd += ['--harness', n]
         out['cmd'] = 'CARGO_NET_OFFLINE=true ' + ' '.join(cmd) + '   (in a scratch copy of /repo with contracts/kani/*.rs appended)'
         env = dict(os.environ, CARGO_NET_OFFLINE='true')
         logp = os.path.join(work, 'kani-last.log')
-        try:
-            with open(logp, 'w') as lf:
-                p = subprocess.run(cmd, cwd=dst, env=env, stdout=lf, stderr=subprocess.STDOUT, timeout=timeout + 600)
-        except subprocess.TimeoutExpired:
-            subprocess.run(['pkill', 'cbmc'])
-            out['status'], out['reason'] = 'undecided', f'cargo kani exceeded {timeout + 600}s'
+        if _run_group(cmd, dst, env, logp, timeout * 2 + 600) is None:
+            out['status'], out['reason'] = 'undecided', f'cargo kani exceeded {timeout * 2 + 600}s'
             return out
         log = open(logp, errors='replace').read()
         if 'error: could not compile' in log or (re.search(r'^error(\[E\d+\])?:', log, flags=re.M) and 'Checking harness' not in log):
@@ -151,14 +183,10 @@ def run_harnesses(repo, contracts, work, harnesses, tier):
                 continue
             cmd2 = base + ['-Z', 'concrete-playback', '--concrete-playback=print', '--harness', n]
             lp2 = os.path.join(work, f'kani-{n}.log')
-            try:
-                with open(lp2, 'w') as lf:
-                    subprocess.run(cmd2, cwd=dst, env=env, stdout=lf, stderr=subprocess.STDOUT, timeout=timeout + 300)
+            if _run_group(cmd2, dst, env, lp2, timeout + 300) is not None:
                 h2 = parse_log(open(lp2, errors='replace').read(), [n]).get(n)
                 if h2 and h2.get('concrete'):
                     h['concrete'] = h2['concrete']
-            except subprocess.TimeoutExpired:
-                subprocess.run(['pkill', 'cbmc'])
         out['harnesses'] = hres
         stubs = sorted(set(re.findall(r'-\s*Stub: (\S+)', log)))
         m = re.search(r'Complete - (\d+) successfully verified harnesses, (\d+) failures, (\d+) total', log)
